@@ -66,7 +66,7 @@ func fatal(f string, a ...any) {
 }
 
 type stats struct {
-	NetFiles, OsFiles, Ranges, Touches int
+	NetFiles, OsFiles, Ranges, Touches, Yields int
 	KeyTypes                           map[string]int
 }
 
@@ -379,6 +379,27 @@ func rewriteFile(p *packages.Package, f *ast.File, rel string, st *stats) bool {
 			s.Body.List = append(pre, s.Body.List...)
 			needSimrt = true
 			st.Ranges++
+		case *ast.ExprStmt:
+			// a seeded yield point before every mutex acquisition (no preemption in the
+			// simulated runtime: without it a goroutine runs from one blocking point to the next)
+			call, ok := s.X.(*ast.CallExpr)
+			if !ok || c.Index() < 0 {
+				return true
+			}
+			sel, ok := call.Fun.(*ast.SelectorExpr)
+			if !ok || (sel.Sel.Name != "Lock" && sel.Sel.Name != "RLock") {
+				return true
+			}
+			if so := p.TypesInfo.Selections[sel]; so != nil {
+				if fn, ok := so.Obj().(*types.Func); ok {
+					switch fn.FullName() {
+					case "(*sync.Mutex).Lock", "(*sync.RWMutex).Lock", "(*sync.RWMutex).RLock":
+						c.InsertBefore(&ast.ExprStmt{X: &ast.CallExpr{Fun: &ast.SelectorExpr{X: ast.NewIdent("zzsimrt"), Sel: ast.NewIdent("Yield")}}})
+						needSimrt = true
+						st.Yields++
+					}
+				}
+			}
 		case *ast.AssignStmt:
 			for _, lhs := range s.Lhs {
 				if touchIndex(p, lhs) {
